@@ -62,6 +62,18 @@ def smap_case(draw):
         news = sorted(news)
     if draw(st.integers(0, 11)) == 0:
         keep, news = [], []  # the empty mapping: every op was dropped
+    # sizes: offsets are counted in 16-bit words and real scripts have tens of thousands of them - one case in five is
+    # the same map stretched (every old offset, return address and mapping key times 37 or times 1000), so that dropped
+    # runs are long
+    scale = draw(st.sampled_from([1, 1, 1, 1, 1, 1, 1, 1, 37, 1000]))
+    if scale > 1:
+        for e in direct:
+            e[0] *= scale
+        for e in macro:
+            e[0] *= scale
+            if e[6] is not None:
+                e[6] *= scale
+        keep = [o * scale for o in keep]
     pairs = [[o, n_] for o, n_ in zip(keep, news)]
     # the mapping is a dict: the order in which the caller filled it is part of the input (drawn)
     if pairs and draw(st.booleans()):
@@ -242,7 +254,13 @@ def evaluate(case, stt):
 def _rewrite_check(sm, before, remap, fails, tag):
     exp = ref_rewrite(before, remap)
     sm.serialize()  # the object has been stored once before it is rewritten (what a caller with a saved map does)
-    _, exc = call_guard(lambda: sm.rewrite_offsets(dict(remap)))
+    def _rw():
+        from vf.cut import cut_stack
+
+        with cut_stack():
+            sm.rewrite_offsets(dict(remap))
+
+    _, exc = call_guard(_rw)
     if exc is not None:
         fails.append(Failure("rewrite:" + exc[0], exc[1]))
         return
